@@ -3,8 +3,32 @@ import vlib
 
 SHIM = ["ringz/sync.go"]
 
+def ticket_proof(ctx, quick):
+    """Unbounded design argument for the ticket protocol (TicketRing.tla): IndInv is inductive (Apalache, SMT), holds
+    initially, implies Bounded / SlotExclusion / Tickets; TLC cross-checks the same module exhaustively up to a bound.
+    Vacuity guards: IndInit is satisfiable far from the initial state, and two broken variants of the protocol are
+    NOT inductive (Apalache) and violate Safety (TLC)."""
+    ind = ["--init=IndInit", "--inv=IndInv", "--length=1"]
+    ctx.model_check("TicketRing", "TicketRing", "MC.cfg", tag="ticket_tlc")
+    ctx.apalache("TicketRing", "TicketRing", ["--cinit=CInit32", "--init=Init", "--inv=IndInv", "--length=0"])
+    ctx.apalache("TicketRing", "TicketRing", ["--cinit=CInit32"] + ind)
+    ctx.apalache("TicketRing", "TicketRing", ["--cinit=CInit32", "--init=IndInit", "--inv=Safety", "--length=0"])
+    ctx.apalache("TicketRing", "TicketRing", ["--cinit=CInit32", "--init=IndInit", "--inv=NotThere", "--length=0"], expect_error=True)
+    if not quick:
+        for ci in ("CInit24", "CInit34"):
+            ctx.apalache("TicketRing", "TicketRing", ["--cinit=" + ci] + ind, timeout=1800)
+            ctx.apalache("TicketRing", "TicketRing", ["--cinit=" + ci, "--init=IndInit", "--inv=Safety", "--length=0"])
+        for ci, cfg in (("CInitEarly", "MC_earlystore.cfg"), ("CInitNoCheck", "MC_nocheck.cfg")):
+            ctx.apalache("TicketRing", "TicketRing", ["--cinit=" + ci] + ind, expect_error=True)
+            r = ctx.tlc("TicketRing", "TicketRing", cfg, workers=8, timeout=600, tag="ticket_" + ci)
+            if not any("Safety" in e for e in r["errors"]):
+                raise vlib.Inconclusive("sanity: TLC does not find the Safety violation of the broken variant %s:\n%s" % (ci, r["tail"]))
+    ctx.cov["inductive_invariant"] = "TicketRing.IndInv: base case, inductive step and IndInv => Safety discharged by Apalache for N=3, Cap=2" + ("" if quick else "; N=2/3, Cap=4; broken variants rejected")
+
+
 def run(ctx):
     quick = ctx.tier == "quick"
+    ticket_proof(ctx, quick)
     extra = [] if quick else [("MCSyncRing", "MC_thorough.cfg")]
     vlib.conc_component(ctx, "SyncRing", "SyncRing", "MCSyncRing", "MC_quick.cfg", "syncring", ["ringz"], SHIM,
                         extra_mc=extra, walk_mode="cover" if quick else "probe",
@@ -12,7 +36,8 @@ def run(ctx):
                         hist_budget=120000 if quick else 1500000, explore_budget=3000 if quick else 20000)
     # "every capacity": rounding to a power of two over the whole range of requested capacities
     vlib.case_component(ctx, "SyncRingCap", "SyncRingSeq", "CapCases", ["MC_cap.cfg"], "c10cap")
-    ctx.assumptions += ["int elements", "PushWait/PopWait are driven with maxWait 0 and <0 only (positive durations are wall-clock behaviour)",
+    ctx.assumptions += ["TicketRing.tla (inductive invariant, unbounded runs) abstracts from values and from the counter wrap and is tied to the code only through its step-for-step correspondence with SyncRingImpl.tla, whose every edge is replayed on the real ring",
+                        "int elements", "PushWait/PopWait are driven with maxWait 0 and <0 only (positive durations are wall-clock behaviour)",
                         "the real ring is placed at 2^32-M+Base through an add-only export file in the scratch copy, so the model's wrap modulo M coincides with the real 32-bit wrap",
                         "data-race freedom is observed by the Go race detector on real goroutines (plain accesses are invisible to the scheduler shim)"]
 
